@@ -36,8 +36,13 @@ pub mod level_axioms {
         ensures #[trigger] l.partial_cmp_spec(&f) == Some(ord_of(filter_num(l), filter_num(f)));
     pub broadcast axiom fn ax_filter_filter_obeys()
         ensures #[trigger] <log::LevelFilter as PartialOrdSpec<log::LevelFilter>>::obeys_partial_cmp_spec();
+    /// `LevelFilter == LevelFilter` is equality of the values (Kani harness filter_vs_filter: `(l == m) == (num(l) == num(m))`)
+    pub broadcast axiom fn ax_filter_eq(a: log::LevelFilter, b: log::LevelFilter)
+        ensures #[trigger] a.eq_spec(&b) == (a == b);
+    pub broadcast axiom fn ax_filter_eq_obeys()
+        ensures #[trigger] <log::LevelFilter as PartialEqSpec<log::LevelFilter>>::obeys_eq_spec();
     pub broadcast group group_level_axioms {
         ax_level_filter_cmp, ax_level_filter_obeys, ax_level_level_cmp, ax_level_level_obeys, ax_level_eq, ax_level_eq_obeys,
-        ax_filter_filter_cmp, ax_filter_filter_obeys,
+        ax_filter_filter_cmp, ax_filter_filter_obeys, ax_filter_eq, ax_filter_eq_obeys,
     }
 }
